@@ -201,6 +201,24 @@ fn guarded<T>(fuel: bool, buflen: usize, backend: Backend, f: impl FnOnce() -> T
     let a1 = alloc_count::events();
     hv::set_fuel(0);
     let ctr = hv::snapshot();
+    // integrity of the instrumentation itself: a forced backend must be the one that ran. (A setter
+    // hook that silently stopped working would leave every "forced SSE4.2 / scalar" call running the
+    // detected backend, and the checks blind on two backends without knowing it.)
+    if forced_ok && backend != Backend::AsIs {
+        const SSE: u64 = hv::B_SSE42_URI | hv::B_SSE42_VALUE;
+        const AVX: u64 = hv::B_AVX2_URI | hv::B_AVX2_VALUE;
+        let wrong = match backend {
+            Backend::Avx2 => ctr.backends & SSE,
+            Backend::Sse42 => ctr.backends & AVX,
+            Backend::Scalar => ctr.backends & (SSE | AVX),
+            Backend::AsIs => 0,
+        };
+        let cached = hv::scan::get_runtime_feature();
+        if wrong != 0 || (r.is_ok() && cached != Some(backend.id())) {
+            eprintln!("HARNESS PANIC: backend forcing hook has no effect: forced {:?}, scanner bits {:#x}, cached id {:?}", backend, ctr.backends, cached);
+            std::process::exit(3);
+        }
+    }
     match r {
         Ok(v) => Guarded { r: Some(v), panic: None, ctr, allocs: a1 - a0, forced_ok },
         Err(_) => {
